@@ -1043,6 +1043,9 @@ class TensorDict(TensorDictBase):
                     pass
                 elif isinstance(dim, tuple):
                     names = [name for i, name in enumerate(names) if i not in dim]
+                elif dim is None:
+                    # all dims are reduced
+                    names = None
                 else:
                     names = [name for i, name in enumerate(names) if i != dim]
             if dim is not NO_DEFAULT:
@@ -1084,8 +1087,11 @@ class TensorDict(TensorDictBase):
                             b if i != dim else 1 for i, b in enumerate(self.batch_size)
                         ]
 
-            else:
+            elif keepdim:
                 batch_size = [1 for b in self.batch_size]
+            else:
+                # dim=None without keepdim: torch reduces every dim
+                batch_size = []
 
             return self._fast_apply(
                 reduction,
